@@ -17,8 +17,9 @@
 //   pw <type char code> <hex>    -> "W <hex>"                    PipeWriter::writeToPipe (bytes found in the pipe)
 //   pwmsg MSG                    -> "W <hex>"                    PipeWriter::reportErr
 //   wsup <n> SUPPR*n             -> "W <hex>"                    PipeWriter::writeSuppr
-//   hr <emitdup> <ids> <hex>     -> events of ProcessExecutor::handleRead called until it returns false, on a pipe holding <hex>
-//   htl <emitdup> <ids> <n> MSG*n-> "H <bits>"                   Executor::hasToLog on the sequence (template "{id}")
+//   hr <flags> <ids> <hex>       -> events of ProcessExecutor::handleRead called until it returns false, on a pipe holding <hex>
+//   htl <flags> <ids> <n> MSG*n  -> "H <bits>"                   Executor::hasToLog on the sequence (template "{id}")
+//        flags: 1 = --emit-duplicates, 2 = templateLocation "{line}:{info}" (templateFormat is always "{id}")
 //        ids = comma separated global suppressions ("-" = none): <hexid> = --suppress=<id>, <hexid>@<line> = --suppress=<id>:*:<line>
 #include "common.h"
 #include <algorithm>
@@ -191,10 +192,11 @@ public:
     int fd;
 };
 
-void setup(Settings& settings, Suppressions& supprs, bool emitdup, const std::string& ids) {
+// flags: bit 0 = emitDuplicates, bit 1 = templateLocation "{line}:{info}" (else empty)
+void setup(Settings& settings, Suppressions& supprs, long long flags, const std::string& ids) {
     settings.templateFormat = "{id}";
-    settings.templateLocation = "";
-    settings.emitDuplicates = emitdup;
+    settings.templateLocation = (flags & 2) ? "{line}:{info}" : "";
+    settings.emitDuplicates = (flags & 1) != 0;
     settings.jobs = 2;
     if (ids != "-") {
         std::istringstream is(ids);
@@ -210,7 +212,7 @@ void setup(Settings& settings, Suppressions& supprs, bool emitdup, const std::st
     }
 }
 
-std::string handleReadOp(bool emitdup, const std::string& ids, const std::string& bytes) {
+std::string handleReadOp(long long emitdup, const std::string& ids, const std::string& bytes) {
     int in[2], ev[2];
     if (pipe(in) != 0 || pipe(ev) != 0) return "pipe-failed";
     fcntl(in[1], F_SETPIPE_SZ, 1 << 20);
@@ -342,12 +344,12 @@ int main() {
                     sl.mSuppressions.push_back(readSuppr(a));
                 out = "W " + hex(withWriter([&](PipeWriter& w) { w.writeSuppr(sl); }));
             } else if (op == "hr") {
-                const bool emitdup = a.num() != 0;
+                const long long emitdup = a.num();
                 const std::string ids = a.next();
                 const std::string bytes = a.str();
                 out = handleReadOp(emitdup, ids, bytes);
             } else if (op == "htl") {
-                const bool emitdup = a.num() != 0;
+                const long long emitdup = a.num();
                 const std::string ids = a.next();
                 const long long n = a.num();
                 Settings settings;
